@@ -92,6 +92,31 @@ theorem stale_timeout_ignored (st : State) (addr : String) (seq : BitVec 24) (en
     (h : alGet st.tx (addr, seq) = none) : step st (.txTimeout addr seq) env = (st, []) := by
   simp [step, h]
 
+/-- **the response overtakes the timeout**: the retransmission timer has fired, its event is still queued, the matching
+    response is handled first.  The request is retired by the response and the stale timeout does nothing — no
+    retransmission after the answer, whatever the retry budget left -/
+theorem answered_then_stale_timeout (st : State) (addr : String) (seq : BitVec 24) (seid : Seid) (env env' : Env) (tx : Tx)
+    (h : alGet st.tx (addr, seq) = some tx) (hs : seid ≠ 0) :
+    let r1 := step st (.srResponse addr seq seid) env
+    let r2 := step r1.1 (.txTimeout addr seq) env'
+    r1.2 = [] ∧ r2.2 = [] ∧ r2.1 = r1.1 ∧ alGet r2.1.tx (addr, seq) = none := by
+  have h1 := stop_on_response st addr seq seid env tx h hs
+  simp only [] at h1
+  have h2 := stale_timeout_ignored (step st (.srResponse addr seq seid) env).1 addr seq env' h1.1
+  refine ⟨h1.2.1, ?_, ?_, ?_⟩
+  · rw [h2]
+  · rw [h2]
+  · rw [h2]; exact h1.1
+
+/-- timer expiries of transmit transactions never touch the receive table (the two kinds of transaction share the key
+    format "<address>-<sequence number>"; an expiry is looked up in the table of its own kind only) -/
+theorem tx_timeout_keeps_rx (st : State) (addr : String) (seq : BitVec 24) (env : Env) :
+    (step st (.txTimeout addr seq) env).1.rx = st.rx := by
+  simp only [step]
+  split
+  · rfl
+  · split <;> rfl
+
 /-! ### the defect repaired by the `fix:` commit, and non-vacuity -/
 
 /-- before the fix the key was the 32-bit counter: at counter 2^24 the request goes out with sequence number 0,
